@@ -562,7 +562,10 @@ def r3(cx):
                 value = 'local'
         cx.site('parse_long_option: (%s, `=` %s) => errors %s, calls %s, value %s' % (a, 'present' if e == 'Some' else 'absent', sorted(errs), sorted(calls), value))
         cx.cellcount(1)
-        if errs != want['errs'] or calls != want['calls'] or value != want['value']:
+        # the essential operations of a cell (how they are spelled - is_none + return, match, let-else - is free)
+        core = {('Required', 'None'): {'next'}}.get((a, e), set())
+        value_ok = value == want['value'] if (a, e) == ('None', 'None') else True
+        if errs != want['errs'] or not core <= calls or not value_ok:
             cx.violation(fn, 'cell:%s:%s' % (a, e), 'long option with argument spec %s and `=` %s: expected errors %s, operations %s, value %s; '
                          'found %s, %s, %s' % (a, 'present' if e == 'Some' else 'absent', sorted(want['errs']), sorted(want['calls']), want['value'],
                                                sorted(errs), sorted(calls), value), loc=hloc(h, arm))
@@ -571,7 +574,7 @@ def r3(cx):
             dr = [x for x in H.calls(arm['body']) if x.get('name') == 'drain']
             rng = [y for x in dr for y in H.walk(x) if y.get('k') == 'binary' and y.get('op') == '+']
             ok = len(rng) == 1 and H.lit_value(rng[0]['b']) == 1 and unwrap(rng[0]['a']).get('k') == 'local'
-            if not ok:
+            if dr and not ok:
                 cx.violation(fn, 'cell:Required:Some:drain', 'the argument of `--name=value` is what follows the `=`: drain(..index + 1)', loc=hloc(h, arm))
     # ---- parse_short_options
     fn = CS + 'parse_short_options'
